@@ -26,6 +26,7 @@ type Env struct {
 	litAt      map[string]Term // known elements of literal sequences: term|index -> element
 	lets       []LetDef
 	nq         *int
+	oldMode    bool // evaluating inside old(...)
 }
 
 type evalErr struct{ msg string }
@@ -96,6 +97,14 @@ func (e *Env) lookup(name string) (Term, bool) {
 				n.lets = append(n.lets, l2)
 			}
 			return n.eval(l.E), true
+		}
+	}
+	if e.frame != nil && e.oldMode {
+		// inside old(...): a parameter name denotes its entry value, whatever was assigned to it since
+		if v, ok := e.frame.params[name]; ok {
+			if t, isTerm := v.(Term); isTerm {
+				return t, true
+			}
 		}
 	}
 	if e.frame != nil {
@@ -215,6 +224,7 @@ func (e *Env) eval(x Expr) Term {
 	case EOld:
 		o := *e
 		o.cur = e.old
+		o.oldMode = true
 		return o.eval(n.X)
 	case EUnary:
 		switch n.Op {
